@@ -69,7 +69,8 @@ Inductive bcase :=
 
 Definition fork_of (n : N) : fork :=
   if n =? 0 then Phase0 else if n =? 1 then Altair else if n =? 2 then Bellatrix else if n =? 3 then Capella else Deneb.
-Definition epc0 : BlockEpc := mkBlockEpc 0 0 None [] 0 0 [] [] (fun _ => None) (fun _ => None).
+Definition mk_epc (ce active : N) (proposer : option N) (total sqrt : N) (sidx : list N) : BlockEpc :=
+  mkBlockEpc ce active proposer [] total sqrt sidx (map (fun i => [i]) sidx) (fun _ => None) (fun _ => None).
 Definition N2 := (N * N)%type.
 Definition pair_eqb {A B} (ea : A -> A -> bool) (eb : B -> B -> bool) (x y : A * B) : bool := ea (fst x) (fst y) && eb (snd x) (snd y).
 Definition listN_eqb := list_eqb N.eqb.
@@ -105,22 +106,19 @@ Definition impl_ok (c : bcase) : bool :=
   | CExit ov s vals active idx go =>
       let E := run_env ov 0 in
       let st := mk_state s vals (map (fun _ => 0) vals) in
-      let epc := epc0 <| be_current_epoch := s / SLOTS_PER_EPOCH (cfg E) |> <| be_active_count := active |> in
+      let epc := mk_epc (s / SLOTS_PER_EPOCH (cfg E)) active None 0 0 [] in
       agree (pair_eqb N.eqb N.eqb)
         (map_outcome (fun s' => let '(_, e, w) := val_obs s' idx in (e, w)) (initiate_validator_exit_impl E epc st idx)) go
   | CSlash ov fk s vals bals active proposer idx go =>
       let E := run_env ov 0 in
       let st := mk_state s vals bals in
-      let epc := epc0 <| be_current_epoch := s / SLOTS_PER_EPOCH (cfg E) |> <| be_active_count := active |>
-                      <| be_proposer := Some proposer |> in
+      let epc := mk_epc (s / SLOTS_PER_EPOCH (cfg E)) active (Some proposer) 0 0 [] in
       agree (pair_eqb (pair_eqb vobs_eqb listN_eqb) listN_eqb)
         (map_outcome (fun s' => (val_obs s' idx, balances s', slashings s')) (slash_validator_impl E (fork_of fk) epc st idx None)) go
   | CSync ov s vals bals committee bits proposer total sqrt sigkind go =>
       let E := run_env ov sigkind in
       let st := (mk_state s vals bals) <| current_sync_committee := mkSyncCommittee (map (fun i => [i]) committee) [] |> in
-      let epc := epc0 <| be_proposer := Some proposer |> <| be_total_active_stake := total |>
-                      <| be_total_active_stake_sqrt := sqrt |> <| be_sync_indices := committee |>
-                      <| be_sync_pubkeys := map (fun i => [i]) committee |> in
+      let epc := mk_epc 0 0 (Some proposer) total sqrt committee in
       let sa := VCont [VBits bits; VBytes (if sigkind =? 2 then G2_POINT_AT_INFINITY else repeat 7 96)] in
       agree listN_eqb (map_outcome balances (process_sync_aggregate_impl E epc st sa)) go
   | CDepCount ov vals bals count index ndeps amount go =>
@@ -136,7 +134,7 @@ Definition impl_ok (c : bcase) : bool :=
       let parent := htr E BeaconBlockHeaderT (header_to_value (latest_block_header st)) in
       let blk := VCont [VUint b_slot; VUint b_proposer; VBytes (if parent_ok then parent else repeat 9 32); VBytes (repeat 0 32);
                         default_value (BeaconBlockBodyT (cfg E) Altair)] in
-      let epc := epc0 <| be_proposer := Some expected |> in
+      let epc := mk_epc 0 0 (Some expected) 0 0 [] in
       agree (pair_eqb N.eqb N.eqb)
         (map_outcome (fun s' => (h_slot (latest_block_header s'), h_proposer_index (latest_block_header s')))
            (process_header_impl E Altair epc st blk)) go
@@ -214,7 +212,7 @@ Definition known_finding (c : bcase) : bool :=
       let st := mk_state s vals bals in
       negb (listN_eqb (spec_loop proposer (sync_pr E st) (sync_propr E st) (combine committee bits) bals)
                       (go_batched proposer (sync_pr E st) (sync_propr E st) (combine committee bits) bals))
-  | CDepCount _ _ _ count index _ _ _ => index <=? count = false   (* deposit_count < eth1_deposit_index *)
+  | CDepCount _ _ _ count index _ _ _ => count <? index             (* deposit_count < eth1_deposit_index *)
   | _ => false
   end.
 
